@@ -10,12 +10,12 @@ CHECKS = {
    "Every history of <= 4 (6) letters over: approve a keysend for H1, per channel validate-holder / revoke / sign-counterparty / counterparty-revokes with HTLC sets over the approved hash H1 (half, full, over the allowance, two parts) and the unapproved hash H2 (alone, or covered by incoming value), preimage disclosure, restart; plus a narrower counterparty-side-only search to depth 6. After every accepted update the ledger inequality of the statement is evaluated in u128, and an accepted update that introduces an unbacked outgoing HTLC is a violation.",
    "In-flight value is defined on the two current commitments of each channel (max of views outgoing, min of views incoming), as fixed in DESIGN 3.4.",
    "3.4"),
- "C17": (True, "macenum", "exploration",
+ "C17": (True, "macenum", "model_checking",
    "exhaustive enumeration of records / mutation lists over a 3-byte alphabet on the real MAC functions of both sides, collision search by hash map",
    "Every record (key of 1-2 characters, version bytes, value of 0-2 bytes over {0x00,'a','b'}) is written with prepare_value_for_put and its stored bytes are presented under every other (key, version) together with shifted/prefixed bytes, and with every single-bit flip, truncation and extension; every list of <= 2 records (plus merged records) is tagged with compute_shared_hmac on the signer side and the storage-library side (compared with each other), collisions between different lists are searched exhaustively; replay under a new nonce, modified and truncated tags are refused.",
    "HMAC-SHA256 trusted. The unframed-MAC collisions found on the unchanged tree are recorded as known findings, one key per boundary that moves.",
    "7.2"),
- "C18": (True, "keysrel", "exploration",
+ "C18": (True, "keysrel", "model_checking",
    "exhaustive enumeration of channel-creation orders, restart points and setup masks on real nodes with a relational oracle",
    "Seeds x {native, LDK} x networks x every ordered arrangement of every non-empty subset of channel ids {1,2,3} x restart position x set-up mask: basepoints, funding key, per-commitment points and 16 secrets of every channel are observed as stub, after setup and at the end; all observations of the same (seed, style, network, id) must be identical across all runs, different ids/seeds must give different keys, and the secrets must equal an independent BOLT-3 generate_from_seed and be accepted in order by the compact store.",
    "Secrets are read from the key material (not through the policy path).",
